@@ -44,6 +44,13 @@ def systematic():
             vs.append(Variant("P%da" % j, "unit", [], [ser(a + str(j))] + fl))
             vs.append(Variant("P%db" % j, "unit", [], [ser(b + str(j))] + fl))
         items.append(Item("E", vs, metas=[EM("aci")] if eflag else []))
+    # ... and the same pairs as two spellings of ONE variant (variant-level flag, enum-level flag, no flag)
+    for mode in ("variant", "enum", "none", "variant-false"):
+        vs = []
+        for j, (a, b) in enumerate(pairs):
+            fl = {"variant": [aci(True, explicit=(j % 2 == 0))], "enum": [], "none": [], "variant-false": [aci(False)]}[mode]
+            vs.append(Variant("Q%d" % j, "unit", [], [ser(a + "q%d" % j), ser(b + "q%d" % j)] + fl))
+        items.append(Item("E", vs, metas=[EM("aci")] if mode == "enum" else []))
     # identifiers as spellings, with serialize_all
     for eflag in (False, True):
         for sty in ("snake_case", "SCREAMING-KEBAB-CASE", None):
